@@ -282,6 +282,7 @@ def quoted_verbatim(ctx):
     f = repo.func('qbee.utils', 'parse_data')
     cfg = build_cfg(f.node, repo_noreturn)
     n = 0
+    states = []
     for x in cfg.nodes:
         if x.kind != 'stmt':
             continue
@@ -294,20 +295,31 @@ def quoted_verbatim(ctx):
                 n += 1
                 conds = [(t.ast.test, lab) for t, lab in cfg.conditions(x)
                          if t.kind == 'test']
-                ok = any(lab == 'true' and isinstance(t, ast.Compare) and
-                         isinstance(t.ops[0], ast.Eq) and
-                         unparse(t.comparators[0]) == 'READING_UNQUOTED'
-                         for t, lab in conds)
+                eqs = [unparse(t.comparators[0]) for t, lab in conds
+                       if lab == 'true' and isinstance(t, ast.Compare) and
+                       len(t.ops) == 1 and isinstance(t.ops[0], ast.Eq) and
+                       isinstance(t.comparators[0], ast.Name) and
+                       isinstance(t.left, ast.Name)]
+                states.append(eqs[0] if eqs else None)
+                ok = bool(eqs)
                 construct = f'{f.file}:parse_data:strip@{_ord(f.node, c)}'
                 ctx.instance(rule, construct, sample={
                     'conds': [(unparse(t), lab) for t, lab in conds]})
                 if not ok:
                     ctx.finding(rule, construct,
                                 'parse_data appends a strip()ped item on a '
-                                'path that is not restricted to the '
-                                'READING_UNQUOTED state: a quoted item can '
-                                'lose its blanks', f.file, c.lineno)
+                                'path that is not restricted to one '
+                                'scanner state (the unquoted-item state): a '
+                                'quoted item can lose its blanks', f.file,
+                                c.lineno)
     ctx.floor('strip() append sites in parse_data', n, 2)
+    known = {s_ for s_ in states if s_}
+    ctx.instance(rule, f'{f.file}:parse_data:strip-states',
+                 sample={'states': sorted(known)})
+    if len(known) > 1:
+        ctx.finding(rule, f'{f.file}:parse_data:strip-states',
+                    f'strip() is applied in more than one scanner state '
+                    f'({sorted(known)})', f.file, f.line)
 
 
 def _ord(fn, node):
